@@ -172,7 +172,7 @@ pub fn run(seed: u64, count: usize, outdir: &str) -> std::io::Result<i32> {
         let mut r = rng.fork();
         let cfg = DagCfg { max_ops: *r.pick(&[3, 8, 16, 30]), max_outputs: 1, max_free_vars: *r.pick(&[0, 0, 2]),
             p_recent: *r.pick(&[0.3, 0.7]), p_const_operand: *r.pick(&[0.15, 0.35]), p_special_const: 0.02,
-            choice_heavy: false, no_hash: true, const_roots: false, choice_chain: 0 };
+            choice_heavy: false, no_hash: true, const_roots: false, choice_chain: if r.chance(0.3) { r.range(2, 8) } else { 0 } };
         let dag = gen_dag(&mut r, &cfg);
         let roots = all_nodes(&dag, 40);
         let dag = Dag { ctx: dag.ctx, roots: roots.clone(), vs: dag.vs };
@@ -250,6 +250,40 @@ pub fn run(seed: u64, count: usize, outdir: &str) -> std::io::Result<i32> {
         let mut bad = vec![];
         bad.extend(tbad);
         let jrows = grad_eval(&jit, &dag.vs, &pts, &seeds);
+        // ---- register pressure: the same tape allocated into 3 and 4 registers (loads / stores of spilled gradients)
+        // computes the same operations in the same order, so the rows are the interpreter's bit for bit
+        if let Ok(rows) = &vrows {
+            let rows_txt: Vec<String> = rows.iter().map(|row| row.iter().map(gbits).collect::<Vec<_>>().join(" ")).collect();
+            macro_rules! small { ($n:literal) => {{
+                match catch_unwind(AssertUnwindSafe(|| GenericVmFunction::<$n>::new(&dag.ctx, &dag.roots).unwrap())) {
+                    Ok(f) => match grad_eval(&f, &dag.vs, &pts, &seeds) {
+                        Ok(r2) => { let t2: Vec<String> = r2.iter().map(|row| row.iter().map(gbits).collect::<Vec<_>>().join(" ")).collect();
+                            if t2 != rows_txt { bad.push(format!("kind=gradient-differs-under-register-pressure backend=vm{} {} registers vs 255", $n, $n)); } }
+                        Err(_) => bad.push(format!("kind=panic backend=vm{}", $n)) },
+                    Err(_) => bad.push(format!("kind=panic backend=vm{} building the function", $n)) }
+            }} }
+            small!(3); small!(4);
+        }
+        // ---- a simplified function has the gradient of the original inside the box its trace came from (CopyReg and the
+        // other forms only simplification produces are reached this way)
+        {
+            let bx: Vec<(f32, f32)> = (0..nvars).map(|j| (pts[0][j] - 0.25, pts[0][j] + 0.25)).collect();
+            macro_rules! simp { ($f:expr, $rows:expr, $name:expr) => {{
+                if let (Ok((_, Some(codes))), Ok(rows)) = (interval_eval(&$f, &dag.vs, &bx), &$rows) {
+                    let tr = make_trace(&codes); let mut ws = Default::default();
+                    match catch_unwind(AssertUnwindSafe(|| $f.simplify(&tr, Default::default(), &mut ws))) {
+                        Ok(Ok(f1)) => match grad_eval(&f1, &dag.vs, &pts[..1], &seeds[..1]) {
+                            Ok(r1) => if !rows.is_empty() && !r1.is_empty() {
+                                let (a, b): (Vec<String>, Vec<String>) = (rows[0].iter().map(gbits).collect(), r1[0].iter().map(gbits).collect());
+                                if a != b { let k = a.iter().zip(&b).position(|(x, y)| x != y).unwrap_or(0);
+                                    bad.push(format!("kind=simplified-gradient-differs backend={} output {k} ({}): original {} simplified {}", $name, op_name(&dag, roots[k.min(roots.len() - 1)]), a.get(k).cloned().unwrap_or_default(), b.get(k).cloned().unwrap_or_default())); } },
+                            Err(_) => bad.push(format!("kind=panic backend={} gradient of the simplified function", $name)) },
+                        Ok(Err(_)) => bad.push(format!("kind=simplify-rejects-own-trace backend={}", $name)),
+                        Err(_) => bad.push(format!("kind=panic backend={} simplify", $name)) }
+                }
+            }} }
+            simp!(vm, vrows, "vm"); simp!(jit, jrows, "jit");
+        }
         for (name, rows) in [("vm", &vrows), ("jit", &jrows)] {
             let Ok(rows) = rows else { bad.push(format!("kind=panic backend={name}")); continue; };
             for (k, row) in rows.iter().enumerate().take(3) {
